@@ -1,0 +1,110 @@
+//! Event log of the public API for the external verification harness: when
+//! the environment variable `CC_VERIF_TRACE` names a file, every call of the
+//! instrumented functions appends one JSON line (operation, arguments,
+//! result, read-only views of the objects involved). Only compiled with
+//! `--cfg cosmian_cover_crypt_verif`; without the variable nothing happens.
+
+use std::{
+    cell::Cell,
+    fs::{File, OpenOptions},
+    io::Write,
+    sync::{
+        atomic::{AtomicU64, Ordering},
+        Mutex, OnceLock,
+    },
+};
+
+use serde_json::{json, Value};
+
+use crate::{AccessPolicy, Error, MasterPublicKey, MasterSecretKey, UserSecretKey, XEnc};
+
+static SINK: OnceLock<Option<Mutex<File>>> = OnceLock::new();
+static SEQ: AtomicU64 = AtomicU64::new(0);
+
+thread_local! {
+    static INSIDE: Cell<bool> = const { Cell::new(false) };
+}
+
+fn sink() -> &'static Option<Mutex<File>> {
+    SINK.get_or_init(|| {
+        std::env::var("CC_VERIF_TRACE").ok().and_then(|p| {
+            OpenOptions::new()
+                .create(true)
+                .append(true)
+                .open(p)
+                .ok()
+                .map(Mutex::new)
+        })
+    })
+}
+
+/// True when tracing is on and the current thread is not already inside an
+/// instrumented call (nested calls are part of the outer one).
+pub fn active() -> bool {
+    sink().is_some() && !INSIDE.with(Cell::get)
+}
+
+/// Runs the real function with nested instrumentation switched off.
+pub fn guard<T>(f: impl FnOnce() -> T) -> T {
+    INSIDE.with(|c| c.set(true));
+    let r = f();
+    INSIDE.with(|c| c.set(false));
+    r
+}
+
+pub fn emit(mut event: Value) {
+    if let Some(file) = sink() {
+        event["seq"] = json!(SEQ.fetch_add(1, Ordering::SeqCst));
+        event["thread"] = json!(format!("{:?}", std::thread::current().id()));
+        if let Ok(mut f) = file.lock() {
+            let _ = writeln!(f, "{event}");
+        }
+    }
+}
+
+pub fn res<T>(r: &Result<T, Error>) -> Value {
+    match r {
+        Ok(_) => json!("ok"),
+        Err(_) => json!("err"),
+    }
+}
+
+pub fn dnf(ap: &AccessPolicy) -> Value {
+    Value::Array(
+        ap.to_dnf()
+            .into_iter()
+            .map(|c| Value::Array(c.into_iter().map(|a| json!([a.dimension, a.name])).collect()))
+            .collect(),
+    )
+}
+
+pub fn with_mpk(mut ev: Value, msk: &MasterSecretKey, r: &Result<MasterPublicKey, Error>) -> Value {
+    ev["res"] = res(r);
+    ev["msk"] = msk.verif_view();
+    if let Ok(mpk) = r {
+        ev["mpkv"] = mpk.verif_view();
+    }
+    ev
+}
+
+pub fn with_usk(mut ev: Value, msk: &MasterSecretKey, usk: Option<&UserSecretKey>) -> Value {
+    ev["msk"] = msk.verif_view();
+    if let Some(usk) = usk {
+        ev["uskv"] = usk.verif_view();
+        ev["chk"] = msk.verif_check_usk(usk);
+    }
+    ev
+}
+
+pub fn secret_fp(s: &[u8]) -> String {
+    s.iter().take(8).map(|b| format!("{b:02x}")).collect()
+}
+
+pub fn enc_event(op: &str, mpk: &MasterPublicKey, r: &Result<(cosmian_crypto_core::Secret<32>, XEnc), Error>) -> Value {
+    let mut ev = json!({"op": op, "res": res(r), "mpkv": mpk.verif_view()});
+    if let Ok((s, e)) = r {
+        ev["encv"] = e.verif_view();
+        ev["secret"] = json!(secret_fp(&s[..]));
+    }
+    ev
+}
